@@ -172,4 +172,29 @@ CHECKS = {
             dict(pkg="fmtchk", run="TestC09Golden", rapid=False, shards=1, timeout=120),
         ],
     ),
+    "C07": dict(
+        level="exploration",
+        technique="property-based testing (rapid) of generated workloads on the production fs+metadb+segment+wal stack under strace; oracle = invariant over the observed syscall history (write/fsync/directory-fsync/unlink/rename ordering relative to API-call markers); plus a direct property of fs.Create/Delete/ListDir",
+        rule="rapid-generated workloads (appends of many batch shapes, forced rotations on small segments, head/tail/everything truncations, stable sets, single and repeated Close/Open, then a fixed tail of rotation + head truncation + reopen + append) run by a traced binary in a fresh directory; marker syscalls bracket every API call. Invariants: at every StoreLogs ack no segment file has un-fsynced writes and every file written since the call began has had its directory entry fsynced since creation (remembered across WAL instances); every unlink of a segment is followed by a directory fsync before the call returns; segment files are created O_CREAT|O_EXCL and fallocate'd to the requested size before first write; wal-meta.db appears only by rename from wal-meta.db.tmp with no un-synced writes and the directory is fsynced before the first segment is created. fs.Create: size, zero fill, exclusivity, Delete+ListDir. Non-trivial = a trace with a first commit into a new segment, a rotation, a deletion and a commit into a file opened (not created) by the current instance; distinct = FNV-64 of the workload",
+        expect_classes=["first-commit-new-segment", "rotation", "deletion", "commit-into-opened-file"],
+        assumptions=COMMON_ASSUME + ["ptrace is permitted in the sandbox (strace -f -y)", "the trace shows that syscalls were issued in the required order, not that the kernel or the disk honoured them (README assumptions about fsync)", "fd-to-path resolution is strace's (-y)"],
+        bins=[("cmd/tracebin", "tracebin")],
+        jobs=[
+            dict(pkg="trace", run="TestC07Trace", checks_quick=12, checks_thorough=150, shards_quick=6, shards_thorough=16, shrinktime="40s", timeout_quick=600, timeout_thorough=3000),
+            dict(pkg="trace", run="TestC07FsCreate", checks_quick=60, checks_thorough=300, shards_quick=1, shards_thorough=2, timeout_quick=300, timeout_thorough=900),
+        ],
+    ),
+    "C08": dict(
+        level="exploration",
+        technique="model-based stateful property testing (rapid) of the StableStore on the production bbolt stack against a map model, interleaved with log operations, reopen and quiescent process-crash images; concurrent read-your-writes run; fdatasync-before-ack invariant over strace histories",
+        rule="rapid-generated sequences of Set/Set(nil)/SetUint64/Get/GetUint64 over keys of 1-40 bytes incl. NUL bytes, the raft keys and one 32KiB key, values nil/empty/1B/8B/100B/4KiB/1MiB, uint64 boundaries, interleaved with appends (rotations on small segments), head/tail/everything truncations, Close/Open, and byte copies of the directory taken while the WAL is idle and opened by a second WAL; after every step every key and the whole log are compared with their models (isolation both ways). A concurrent variant mutates the log while another goroutine sets and reads back its own keys. Traced workloads: at every Set ack wal-meta.db has no un-synced write. Non-trivial = a key read after at least one later log operation and at least one reopen or crash image (concurrent cases and traces with an acknowledged Set count too); distinct = FNV-64 of the case",
+        expect_classes=["get-after-log-op-and-reopen", "crash-image", "reopen", "truncation", "set-nil", "value-1MiB", "key-32KiB", "concurrent-log-and-stable", "set-acked"],
+        assumptions=COMMON_ASSUME + ["power loss inside a bolt transaction is bbolt's own guarantee (trusted base); only its fdatasync-before-return discipline is observed", "a byte copy of the directory is a faithful process-crash image only while no bolt transaction is in flight, which the rotation barrier guarantees", "Set and SetUint64 are never mixed on one key (interface contract)"],
+        bins=[("cmd/tracebin", "tracebin")],
+        jobs=[
+            dict(pkg="seq", run="TestC08Stable", checks_quick=60, checks_thorough=1500, shards_quick=8, shards_thorough=16, timeout_quick=600, timeout_thorough=3000),
+            dict(pkg="seq", run="TestC08Concurrent", checks_quick=30, checks_thorough=500, shards_quick=4, shards_thorough=8, timeout_quick=600, timeout_thorough=3000),
+            dict(pkg="trace", run="TestC08Trace", checks_quick=8, checks_thorough=100, shards_quick=4, shards_thorough=8, shrinktime="40s", timeout_quick=600, timeout_thorough=3000),
+        ],
+    ),
 }
